@@ -62,10 +62,13 @@ def digitChar (d : Nat) : Char := Char.ofNat (d + 48)
 
 def natOfDigits (ds : List Char) : Nat := ds.foldl (fun a c => 10 * a + digitVal c) 0
 
-def natDigits (n : Nat) : List Char :=
-  if n < 10 then [digitChar n] else natDigits (n / 10) ++ [digitChar (n % 10)]
-termination_by n
-decreasing_by omega
+/-- decimal digits, most significant first. `k` is fuel (`k ≥ n` is always enough; structural
+    recursion keeps the function evaluable inside proofs). -/
+def natDigitsAux : Nat → Nat → List Char
+  | 0, n => [digitChar (n % 10)]
+  | k + 1, n => if n < 10 then [digitChar n] else natDigitsAux k (n / 10) ++ [digitChar (n % 10)]
+
+def natDigits (n : Nat) : List Char := natDigitsAux n n
 
 /-- what `~w` prints for an integer -/
 def renderInt (i : Int) : List Char :=
@@ -114,7 +117,10 @@ def classify (t : List Char) : Field :=
   | r => classifySigned t false r
 
 /-- float lexemes: `[-] digits . digits [ (e|E) [+|-] digits ]` -/
-def unsignedFloatLex (l : List Char) : Bool := classifyUnsigned l == some (.inr l)
+def unsignedFloatLex (l : List Char) : Bool :=
+  match classifyUnsigned l with
+  | some (.inr _) => true
+  | _ => false
 
 def isFloatLex : List Char → Bool
   | '-' :: r => unsignedFloatLex r
